@@ -312,7 +312,8 @@ SEEDS = [("arc", "arc-method2", True), ("arc", "arc-method3", True), ("arc", "ar
          ("lzx", "lzxdata", False), ("lzx", "lzxstore", False),
          # two loadable members: damage to the first entry legitimately selects the second -> gate correspondence only
          ("lzx", "lzxmerge", False, "gates-only"),
-         ("zip", "ponylips.64.zip", False), ("gzip", "adlibsp.rad.gz", False)]
+         ("zip", "ponylips.64.zip", False), ("gzip", "adlibsp.rad.gz", False), ("gzip", "gzipdata", False),
+         ("bzip2", "bzip2data", False), ("xz", "xzdata", False)]
 
 
 def seed_archives(max_size=400000):
@@ -328,6 +329,8 @@ def seed_archives(max_size=400000):
             continue
         a = _arch(fmt, "repo:" + name, name, data, None, {}, crc16=c16)
         a["oracle"] = len(ent) < 4
+        if fmt == "xz" and (len(data) < 12 or data[7] != 1):
+            continue                 # check type other than CRC-32: no implemented check
         if fmt == "arcfs" and len(data) >= 132 and data[96 + 26] == 0 and data[96 + 27] == 0:
             a["oracle"] = False      # stored CRC 0 = unchecked by design (arcfs.c): carries no check
         if fmt == "arcfs":
